@@ -2,11 +2,11 @@
 """Rewrites the claimed-set table of DESIGN.md section 12.1 (between the CLAIM-TABLE markers) from evidence/*.json."""
 import glob, json, os, re
 HERE = os.path.dirname(os.path.dirname(os.path.abspath(__file__)))
-ENG = {"C01": "A2, H, G, D2, T", "C02": "L, use analysis", "C03": "A, F, G, S2", "C04": "A, B, P, E, F", "C05": "A, C, H, S2",
-       "C06": "A (constant evaluation), F, T", "C07": "D, H, A, T", "C08": "C, A, F, G, S2, T", "C09": "A, F, B, S2",
+ENG = {"C01": "A2, H, G, D2, T, K", "C02": "L, use analysis, K", "C03": "A, F, G, S2, K", "C04": "A, B, P, E, F", "C05": "A, C, H, S2, K",
+       "C06": "A (constant evaluation), F, T", "C07": "D, H, A, T, K", "C08": "C, A, F, G, S2, T, K", "C09": "A, F, B, S2, K",
        "C10": "F, P (symbolic folding), S, S', S2", "C11": "A, P, T, L, S, S', S2", "C12": "A, H, P, L, T, S, S2",
-       "C13": "F, S, S2", "C14": "F1 (typestate), F, H', S2", "C15": "E", "C16": "F, A, S2", "C17": "P, A, F",
-       "C18": "A, G, F, P (rational folding, recording canvas), S2", "C19": "H, A, G", "C20": "A"}
+       "C13": "F, S, S2, K", "C14": "F1 (typestate), F, H', S2, K", "C15": "E", "C16": "F, A, S2, K", "C17": "P, A, F, K",
+       "C18": "A, G, F, P (rational folding, recording canvas), S2", "C19": "H, A, G, K", "C20": "A"}
 rows = []
 tot = 0
 for f in sorted(glob.glob(os.path.join(HERE, "evidence", "C??.json"))):
